@@ -158,7 +158,12 @@ def run_script(exe, cases, env=None, timeout=600, tag="drv", args=()):
                     err = err2
             except Exception:
                 pass
-            crashes.append(Crash(cid, rc, err, "exit-%s" % rc if rc > 0 else "signal-%s" % (-rc), partial))
+            wd = rc == 124 or "VF-WATCHDOG" in err
+            if wd and partial and partial[-1].startswith("E "):
+                # the stall did not reproduce when the case ran alone: transient (loaded machine), not a verdict
+                results[cid] = partial
+            else:
+                crashes.append(Crash(cid, rc, err, "hang" if wd else ("exit-%s" % rc if rc > 0 else "signal-%s" % (-rc)), partial))
         remaining = remaining[idx + 1:]
         if len(crashes) >= MAX_CRASHES:
             # enough witnesses; do not spend the budget restarting the driver thousands of times
